@@ -36,8 +36,8 @@ const (
 )
 
 func init() {
-	register("C10", "other", "T8 DecisionTable with value provenance (objects, not text), T4 GuardedBy with the linear normaliser, T2/T3 path rules, T6 WhoMayWrite, T17 Iteration view of loops, T19 ReachingDefs (tested frames)",
-		"Decides ONLY the rule constants of the election, i.e. the vote-rule table the property spells out; equivalence of the emitted blocks with an independent reference implementation needs execution and is NOT decided, nor is forkless-cause (vecfc, C05); of the frame rule only the frames that calcFrameIdx tests are decided (C10.frame: by reaching definitions, every frame handed to forklessCausedByQuorumOn is the self-parent's frame or the previously tested frame plus one on the edge where that test held; the rest of the frame rule is C04). Loops are taken as iterations (range, or counted from 0 with C[i]), and a statement may live in a private helper of the election (the el.votes store) or in a higher-order 'for each observed root' helper. Decided: round = root frame - frame to decide, older roots do not vote; round 1: yes is exactly the comma-ok of looking the subject up in the map of previous-frame roots that observe(newRoot, ·) accepts (keyed by their validator), such a vote never decides; later rounds: each vote of a previous-frame root that the new root observes is looked up for (that root, this subject) and counted with the voter's validator on the yes counter on the vote.yes edge and on the no counter on the other edge, the counters being fresh per subject; the new vote is yes >= no of those two counters' sums (normalised: a tie is yes), computed after all observed roots were counted and only if all counted votes reach quorum (otherwise error, as for a missing or double vote); decided is yesCounter.HasQuorum() OR noCounter.HasQuorum(); a vote enters decidedRoots exactly on the decided edge, under its subject; every subject's vote is stored under (new root, subject); chooseAtropos walks SortedIDs(), returns a root only on the decided-and-yes edge (Atropos = that vote's observed root, Frame = frameToDecide), continues only on the decided-and-no edge, returns (nil, nil) at the first undecided validator and an error when all are decided no.",
+	register("C10", "other", "T8 DecisionTable with value provenance (objects, not text), T4 GuardedBy with the linear normaliser, T2/T3 path rules, T6 WhoMayWrite, T17 Iteration view of loops, T19 ReachingDefs (tested frames), inlined views of ProcessRoot / chooseAtropos / notDecidedRoots / calcFrameIdx (helpers of the package are seen through, error tests threaded per return site)",
+		"Decides ONLY the rule constants of the election, i.e. the vote-rule table the property spells out; equivalence of the emitted blocks with an independent reference implementation needs execution and is NOT decided, nor is forkless-cause (vecfc, C05); of the frame rule only the frames that calcFrameIdx tests are decided (C10.frame: by reaching definitions, every frame handed to forklessCausedByQuorumOn is the self-parent's frame or the previously tested frame plus one on the edge where that test held; the rest of the frame rule is C04). Loops are taken as iterations (range, or counted from 0 with C[i], the bound possibly defined next to the index), loop membership is decided on the CFG, and the four functions are analysed as inlined views: any part of their work may live in helper functions of the package (vote computation per round, counting, lookups, stores, predicates; the vote under construction may be a helper's local that is copied into the stored variable), a helper's error return followed by the caller's `if err != nil { return … }` counts as the error exit it is; observedRoots/observedRootsMap may use a higher-order 'for each observed root' helper. Decided: round = root frame - frame to decide, older roots do not vote; round 1: yes is exactly the comma-ok of looking the subject up in the map of previous-frame roots that observe(newRoot, ·) accepts (keyed by their validator), such a vote never decides; later rounds: each vote of a previous-frame root that the new root observes is looked up for (that root, this subject) and counted with the voter's validator on the yes counter on the vote.yes edge and on the no counter on the other edge, the counters being fresh per subject; the new vote is yes >= no of those two counters' sums (normalised: a tie is yes), computed after all observed roots were counted and only if all counted votes reach quorum (otherwise error, as for a missing or double vote); decided is yesCounter.HasQuorum() OR noCounter.HasQuorum(); a vote enters decidedRoots exactly on the decided edge, under its subject; every subject's vote is stored under (new root, subject); chooseAtropos walks SortedIDs(), returns a root only on the decided-and-yes edge (Atropos = that vote's observed root, Frame = frameToDecide), continues only on the decided-and-no edge, returns (nil, nil) at the first undecided validator and an error when all are decided no.",
 		[]string{"pos.WeightCounter.Count adds the weight of the validator passed, once (C11)", "Validators.SortedIDs is the canonical order (C12)", "observe/getFrameRoots are the forkless-cause and root-registry callbacks (C05, C33)"},
 		runC10)
 }
@@ -91,9 +91,69 @@ func c10FieldOf(f *core.FuncInfo, v *types.Var, field string, truth bool) func(c
 	})
 }
 
-// c10VarIs matches a bare boolean variable with the given truth.
+// c10FieldOfAny matches a bare boolean <v>.<field>, v being any of the variables, with the given truth.
+func c10FieldOfAny(f *core.FuncInfo, vs map[*types.Var]bool, field string, truth bool) func(core.Fact) bool {
+	return c15BoolFact(truth, func(e ast.Expr) bool {
+		root, path := fieldPath(f, e)
+		return len(path) == 1 && path[0] == field && vs[varOf(f, root)]
+	})
+}
+
+// c10VarIs matches a bare boolean variable (or a single-definition copy of it) with the given truth.
 func c10VarIs(f *core.FuncInfo, v *types.Var, truth bool) func(core.Fact) bool {
-	return c15BoolFact(truth, func(e ast.Expr) bool { return v != nil && varOf(f, e) == v })
+	return c15BoolFact(truth, func(e ast.Expr) bool {
+		return v != nil && (varOf(f, e) == v || varOf(f, c15Through(f, e)) == v)
+	})
+}
+
+// c10CopySources: v and, transitively, the variables whose value is copied into it by a plain
+// assignment (v = w): the places where the value v ends up with may have been built.
+func c10CopySources(f *core.FuncInfo, v *types.Var) map[*types.Var]bool {
+	out := map[*types.Var]bool{v: true}
+	for changed := true; changed; {
+		changed = false
+		for _, a := range assignments(f) {
+			if a.RHS == nil || (a.Tok != token.ASSIGN && a.Tok != token.DEFINE) || !out[varOf(f, a.LHS)] {
+				continue
+			}
+			if as, ok := a.Stmt.(*ast.AssignStmt); ok && len(as.Lhs) != len(as.Rhs) {
+				continue
+			}
+			if w := varOf(f, a.RHS); w != nil && !w.IsField() && !out[w] && types.Identical(w.Type(), v.Type()) {
+				out[w] = true
+				changed = true
+			}
+		}
+	}
+	return out
+}
+
+// c10StartsWithout: every whole-value definition of the variables is the zero value, a composite literal
+// that does not set the field, or a copy of another of them.
+func c10StartsWithout(f *core.FuncInfo, vs map[*types.Var]bool, field string) bool {
+	n := 0
+	for _, a := range assignments(f) {
+		if !vs[varOf(f, a.LHS)] {
+			continue
+		}
+		n++
+		if a.RHS == nil {
+			if _, isSpec := a.Stmt.(*ast.ValueSpec); isSpec {
+				continue // var v T
+			}
+			return false
+		}
+		if as, ok := a.Stmt.(*ast.AssignStmt); ok && len(as.Lhs) != len(as.Rhs) {
+			return false // a call's result: unknown value
+		}
+		if vs[varOf(f, a.RHS)] {
+			continue
+		}
+		if flds, _, ok := c15StructFields(f, a.RHS); !ok || flds[field] != nil {
+			return false
+		}
+	}
+	return n > 0
 }
 
 // c10Lookup is a comma-ok map lookup "val, ok := m[key]".
@@ -164,8 +224,9 @@ type c10Ctx struct {
 	round1      func(core.Fact) bool
 	roundLater  func(core.Fact) bool
 	subjLoop    ast.Stmt
-	subjIt      *core.Iteration // the loop over the undecided subjects
-	vote        *types.Var      // the new vote being built
+	subjIt      *core.Iteration     // the loop over the undecided subjects
+	vote        *types.Var          // the new vote being built (the variable that is stored)
+	votes       map[*types.Var]bool // that variable and the locals whose value is copied into it (the vote under construction may live in a helper's local)
 	yesLater    *assignment
 	decLater    *assignment
 	obsLoop     ast.Stmt
@@ -215,7 +276,10 @@ func runC10(c *core.Ctx) {
 		for _, f := range []string{c10VotesF, c10DecRoots, c10ValsF, c10FrameF, c10YesF, c10DecidedF, c10ObsRootF} {
 			c.Fld(f)
 		}
-		pr := c.Fn(c10El + ".ProcessRoot")
+		// ProcessRoot as one body: helpers of the election it calls are seen through (inlined view), except the
+		// ones the rule talks about by name
+		pr := c10Inlined(c.Fn(c10El+".ProcessRoot"), c10El+".notDecidedRoots", c10El+".observedRootsMap", c10El+".observedRoots",
+			c10El+".chooseAtropos", c10El+".observe", c10El+".getFrameRoots")
 		x.pr = pr
 		x.newRoot = pr.Param(0)
 		c.Need(x.newRoot != nil && c15TypeName(x.newRoot.Type()) == c10Pkg+".RootAndSlot", "ProcessRoot(newRoot RootAndSlot)")
@@ -256,6 +320,7 @@ func runC10(c *core.Ctx) {
 		}
 		x.vote = varOf(pr, st.Val)
 		c.Need(x.vote != nil && c15TypeName(x.vote.Type()) == c10Pkg+".voteValue", "the stored vote is a voteValue variable")
+		x.votes = c10CopySources(pr, x.vote)
 		okKey := varOf(pr, c15Through(pr, st.From)) == x.newRoot && x.isSubj(st.For)
 		c.Check(okKey, "vote stored under (new root, subject)", "T8 provenance", st.Pos,
 			"el.votes[{fromRoot: newRoot, forValidator: subject}] = the vote just computed",
@@ -274,7 +339,7 @@ func runC10(c *core.Ctx) {
 			"votes are cast only on the edge NOT(root frame <= frameToDecide)",
 			"a root at or below the frame being decided can cast votes: "+pr.DescribePath(wit))
 		// T6: who writes the election state
-		for _, f := range c15PkgFuncs(p, c10Pkg) {
+		for _, f := range c10PkgView(p, c10Pkg, pr) {
 			for _, a := range assignments(f) {
 				tgt := a.LHS
 				if ix, ok := ast.Unparen(tgt).(*ast.IndexExpr); ok {
@@ -310,7 +375,7 @@ func runC10(c *core.Ctx) {
 	c.Clause("C10.round1", func() {
 		for _, a := range assignments(pr) {
 			root, path := fieldPath(pr, a.LHS)
-			if varOf(pr, root) != x.vote || len(path) != 1 {
+			if !x.votes[varOf(pr, root)] || len(path) != 1 {
 				continue
 			}
 			r1, _ := pr.GuardedBy(a.Pt, x.round1)
@@ -383,8 +448,8 @@ func runC10(c *core.Ctx) {
 				okND = false
 			}
 		}
-		rhs, _ := c15SingleDef(pr, x.vote)
-		if flds, _, ok := c15StructFields(pr, rhs); !ok || flds[c10DecidedF] != nil {
+		// every value the vote starts from is undecided: the zero value or a literal that does not set decided
+		if !c10StartsWithout(pr, x.votes, c10DecidedF) {
 			okND = false
 		}
 		for _, st := range c10IndexStores(pr, func(m ast.Expr) bool { return fieldNameOf(pr, m) == c10DecRoots }) {
@@ -412,7 +477,7 @@ func runC10(c *core.Ctx) {
 		c.Need(x.prev != nil && x.prev.Val != nil && x.prev.Ok != nil, "later rounds look previous votes up in el.votes")
 		flds, _, ok := c15StructFields(pr, c15Through(pr, x.prev.Key))
 		c.Need(ok, "the lookup key is a voteID literal")
-		x.obsLoop, x.obsIt = c10LoopAt(pr, x.prev.Stmt.Pos())
+		x.obsLoop, x.obsIt = c10LoopAt(pr, x.prev.Pt)
 		okKey := x.obsIt != nil && x.obsLoop != x.subjLoop && x.isVoter(flds[c10Pkg+".voteID.fromRoot"]) && x.isSubj(flds[c10Pkg+".voteID.forValidator"])
 		c.Check(okKey, "previous vote looked up for (observed root, subject)", "T8 provenance", x.prev.Stmt.Pos(),
 			"the vote counted is el.votes[{fromRoot: the observed root of this iteration, forValidator: the subject}]",
@@ -502,7 +567,7 @@ func runC10(c *core.Ctx) {
 			if okF {
 				seenCalls[rhs] = true
 				sel, _ := ast.Unparen(call.Fun).(*ast.SelectorExpr)
-				okF = sel != nil && fieldNameOf(pr, sel.X) == c10ValsF && enclosingLoop(pr, d.A.Stmt.Pos()) == x.subjLoop
+				okF = sel != nil && fieldNameOf(pr, sel.X) == c10ValsF && c10LoopOfPoint(pr, d.A.Pt) == x.subjLoop
 			}
 			c.Check(okF, r.role+" is fresh per subject", "T8 provenance", pos,
 				"the counter is el.validators.NewCounter() created inside the subject loop, outside the voter loop",
@@ -568,7 +633,7 @@ func runC10(c *core.Ctx) {
 			"vote.yes is yesCounter.Sum() >= noCounter.Sum() up to rewriting: the weighted majority, a tie counts as yes",
 			"the new vote is not 'yes weight >= no weight' of the yes-edge and no-edge counters (normalised: "+got+", expected +1*no -1*yes +0 <= 0): on a tie, or with the counters exchanged, this node votes differently from nodes running the specified rule and the network forks")
 		// after all voters were counted, and only with a quorum of votes
-		okAfter := enclosingLoop(pr, a.Stmt.Pos()) == x.subjLoop
+		okAfter := c10LoopOfPoint(pr, a.Pt) == x.subjLoop
 		if done, complete := x.obsIt.Done, x.obsIt.Complete; okAfter && done != nil && complete {
 			okAfter, _ = mustPassBlockBefore(pr, done, a.Pt)
 			// ... in this iteration of the subject loop
@@ -635,10 +700,10 @@ func runC10(c *core.Ctx) {
 		// entry into decidedRoots exactly on the decided edge, under the subject
 		stores := c10IndexStores(pr, func(m ast.Expr) bool { return fieldNameOf(pr, m) == c10DecRoots })
 		c.ExpectAtLeast("stores into decidedRoots", len(stores), 1)
-		decT, decF := c10FieldOf(pr, x.vote, c10DecidedF, true), c10FieldOf(pr, x.vote, c10DecidedF, false)
+		decT, decF := c10FieldOfAny(pr, x.votes, c10DecidedF, true), c10FieldOfAny(pr, x.votes, c10DecidedF, false)
 		for _, st := range stores {
 			ix := ast.Unparen(st.LHS).(*ast.IndexExpr)
-			okK := x.isSubj(ix.Index) && varOf(pr, st.RHS) == x.vote
+			okK := x.isSubj(ix.Index) && x.votes[varOf(pr, st.RHS)]
 			g, wit := pr.GuardedBetween(a.Pt, st.Pt, decT)
 			d, _ := pr.MustPassBefore([]core.Point{a.Pt}, st.Pt)
 			c.Check(okK && g && d, "decidedRoots[subject] = vote only when decided", "T4 GuardedBy", st.Stmt.Pos(),
@@ -654,7 +719,7 @@ func runC10(c *core.Ctx) {
 	})
 
 	c.Clause("C10.atropos", func() {
-		ca := c.Fn(c10El + ".chooseAtropos")
+		ca := c10Inlined(c.Fn(c10El + ".chooseAtropos"))
 		var lk *c10Lookup
 		for _, l := range c10Lookups(ca) {
 			if fieldNameOf(ca, l.Map) == c10DecRoots {
@@ -664,7 +729,7 @@ func runC10(c *core.Ctx) {
 		}
 		c.Need(lk != nil && lk.Ok != nil && lk.Val != nil, "chooseAtropos looks the validator up in decidedRoots with comma-ok")
 		// the walk: an iteration (range, or index from 0 with C[i]) over el.validators.SortedIDs()
-		loop, it := c10LoopAt(ca, lk.Stmt.Pos())
+		loop, it := c10LoopAt(ca, lk.Pt)
 		c.Need(loop != nil, "chooseAtropos looks the decisions up in a loop")
 		okOrder := false
 		if it != nil && it.Coll != nil && it.FromZero && (!it.Counted || it.Index != nil) {
@@ -736,7 +801,7 @@ func runC10(c *core.Ctx) {
 	})
 
 	c.Clause("C10.subjects", func() {
-		nd := c.Fn(c10El + ".notDecidedRoots")
+		nd := c10Inlined(c.Fn(c10El + ".notDecidedRoots"))
 		var lk *c10Lookup
 		for _, l := range c10Lookups(nd) {
 			if fieldNameOf(nd, l.Map) == c10DecRoots {
@@ -745,7 +810,7 @@ func runC10(c *core.Ctx) {
 			}
 		}
 		c.Need(lk != nil && lk.Ok != nil, "notDecidedRoots looks validators up in decidedRoots")
-		_, it := c10LoopAt(nd, lk.Stmt.Pos())
+		_, it := c10LoopAt(nd, lk.Pt)
 		c.Need(it != nil && it.Coll != nil, "notDecidedRoots iterates over validators")
 		okSrc := false
 		if call := isCallTo(nd, it.Coll, "inter/pos.Validators.IDs", "inter/pos.Validators.SortedIDs"); call != nil {
